@@ -78,15 +78,15 @@ theorem errOk_mono {E : Env} {A B : List Con} {err : Err} (h : ErrOk E A err) (h
   · exact Or.inl ⟨he, fun hb => hn (hab hb)⟩
   · exact Or.inr hg
 
-theorem clExtremum_spec {E : Env} (hE : OracleExact E) {self self' : Ops} (hs : SelfOk self) (hs' : SelfOk self')
+theorem clExtremum_spec {G : List Con → List Nat → List Nat → Prop} {E : Env} (hE : OracleExact E) {self self' : Ops} (hs : SelfOk self) (hs' : SelfOk self')
     (hsat : self.satisfiable = clSat E self') (hev : self.eval = clEval E self')
-    (U : List Con) (s : St) (h : CLInv U s) (isMax : Bool) (e : Exp) (he : ExpWf e)
+    (U : List Con) (s : St) (h : CLInv G U s) (isMax : Bool) (e : Exp) (he : ExpWf e)
     (extra : List Con) (wf : ∀ c ∈ extra, ConWf c) (signed : Bool) :
     match clExtremum E self isMax e extra signed s with
     | (.ok i, s') => (match e.conc with
                       | some c => i = (c : Int)
-                      | none => IsOpt isMax signed (U ++ extra) e i) ∧ CLInv U s'
-    | (.error err, s') => ErrOk E (U ++ extra) err ∧ CLInv U s' := by
+                      | none => IsOpt isMax signed (U ++ extra) e i) ∧ CLInv G U s'
+    | (.error err, s') => ErrOk E (U ++ extra) err ∧ CLInv G U s' := by
   obtain ⟨hcc, hcv, hmh⟩ := hs
   unfold clExtremum
   rw [hcv e]
